@@ -40,7 +40,7 @@ def run_case(case: Dict[str, Any]) -> CaseResult:
 def _cases(draw: Any, tier: str) -> Dict[str, Any]:
     c = draw(sc.sched_case(tier=tier, modes=("ctl", "ctl", "free", "ctl-ex"), min_sites=2, max_sites=9,
                            wide=draw(st.integers(0, 3)) > 0, min_mc=draw(st.sampled_from([1, 2, 2, 3])), flags=draw(st.integers(0, 3)) == 0, sel_rate=0.15,
-                           seq_rate=0.15, prio=(-2, 4), faults=2, max_mc=4))
+                           seq_rate=0.15, prio=(-2, 4), faults=2, max_mc=4, profile_rate=0.25))
     if draw(st.integers(0, 5)) == 0:
         c["noframe"] = True
     return c
